@@ -839,16 +839,23 @@ def restore_local_names(tree: ast.Module, relpath: str) -> int:
             continue
         # partial N5: the function was changed in more than names.  Every local whose DEFINING statement still has its reference shape (def_keys) gets its reference
         # name back; the others keep theirs.  (A renaming of locals is behaviour-preserving as long as nothing is captured: a target name that is already in use stays.)
+        cur = def_keys(f)
+        ref_key = dict(zip(r["locals"], r["defs"]))
+        # a local that already carries a reference name with that name's own key is what it says it is (equal keys - three counters all starting at 0 - are told apart by name first)
+        settled = {nm_ for nm_, k_ in cur if ref_key.get(nm_) == k_}
         ref_by_key = {}
         seen_k = {}
         for nm_, k_ in zip(r["locals"], r["defs"]):
+            if nm_ in settled:
+                continue
             j_ = seen_k.get(k_, 0)
             seen_k[k_] = j_ + 1
             ref_by_key[(k_, j_)] = nm_
-        cur = def_keys(f)
         seen_k = {}
         ren = {}
         for nm_, k_ in cur:
+            if nm_ in settled:
+                continue
             j_ = seen_k.get(k_, 0)
             seen_k[k_] = j_ + 1
             tgt = ref_by_key.get((k_, j_))
